@@ -296,7 +296,7 @@ const uint8_t* InterfacePayload::getStreamIdCountPtr() const
 const uint8_t* InterfacePayload::getVendorDataLengthPtr() const
 {
     auto countPtr = getStreamIdCountPtr();
-    auto count = toUint16(countPtr);
+    size_t count = toUint16(countPtr);
     if (count % 2)
         ++count;
 
